@@ -22,21 +22,22 @@ import (
 // and diff both ways, re-create from both exports on fresh engines and project independently.
 
 type exportObs struct {
-	ID       int      `json:"id"`
-	Variant  string   `json:"variant"`
-	State    sq.State `json:"state"`
-	Orig     sq.State `json:"orig"`
-	FromHCL  sq.State `json:"from_hcl"`
-	FromSQL  sq.State `json:"from_sql"`
-	Skipped  string   `json:"skipped"`
-	Err      string   `json:"err"`
-	DiffFwd  int      `json:"diff_fwd"`
-	DiffBwd  int      `json:"diff_bwd"`
-	Stable   bool     `json:"stable"`
-	HCL      string   `json:"hcl,omitempty"`
-	SQL      []string `json:"sql,omitempty"`
-	Changes  []string `json:"changes,omitempty"`
-	HasInline bool    `json:"has_inline_unique"`
+	ID        int      `json:"id"`
+	Variant   string   `json:"variant"`
+	State     sq.State `json:"state"`
+	Orig      sq.State `json:"orig"`
+	FromHCL   sq.State `json:"from_hcl"`
+	FromSQL   sq.State `json:"from_sql"`
+	Skipped   string   `json:"skipped"`
+	Err       string   `json:"err"`
+	DiffFwd   int      `json:"diff_fwd"`
+	FreshDiff int      `json:"fresh_diff"`
+	DiffBwd   int      `json:"diff_bwd"`
+	Stable    bool     `json:"stable"`
+	HCL       string   `json:"hcl,omitempty"`
+	SQL       []string `json:"sql,omitempty"`
+	Changes   []string `json:"changes,omitempty"`
+	HasInline bool     `json:"has_inline_unique"`
 }
 
 // ddlVariant renders the start state in another spelling: single-column keys inline, eligible unique indexes as inline UNIQUE constraints.
@@ -177,18 +178,45 @@ func openDB(path string) (*sql.DB, error) {
 }
 
 func recreate(ctx context.Context, path string, stmts []string) (sq.State, error) {
+	st, _, err := recreateAndDiff(ctx, path, stmts, nil)
+	return st, err
+}
+
+// recreateAndDiff executes the statements on a fresh database and, when desired is given, also inspects that database and diffs it
+// (normalized, as `schema apply` does) against desired: the number of changes a second apply of the same document would plan.
+func recreateAndDiff(ctx context.Context, path string, stmts []string, desired *schema.Schema) (sq.State, []string, error) {
 	db, err := openDB(path)
 	if err != nil {
-		return nil, err
+		return nil, nil, err
 	}
 	defer db.Close()
 	defer os.Remove(path)
 	for _, s := range stmts {
 		if _, err := db.ExecContext(ctx, s); err != nil {
-			return nil, fmt.Errorf("%s: %w", s, err)
+			return nil, nil, fmt.Errorf("%s: %w", s, err)
 		}
 	}
-	return sq.Project(db)
+	st, err := sq.Project(db)
+	if err != nil || desired == nil {
+		return st, nil, err
+	}
+	drv, err := sqlite.Open(db)
+	if err != nil {
+		return st, nil, err
+	}
+	cur, err := drv.InspectSchema(ctx, "main", nil)
+	if err != nil {
+		return st, nil, fmt.Errorf("inspect of the re-created database: %w", err)
+	}
+	cs, err := drv.SchemaDiff(cur, desired, schema.DiffNormalized())
+	if err != nil {
+		return st, nil, fmt.Errorf("diff of the re-created database: %w", err)
+	}
+	var names []string
+	for _, c := range cs {
+		names = append(names, fmt.Sprintf("%T", c))
+	}
+	return st, names, nil
 }
 
 func exportOne(id int, st sq.State, variant, dir string) (o exportObs) {
@@ -291,10 +319,20 @@ func exportOne(id int, st sq.State, variant, dir string) (o exportObs) {
 		o.Err = "plan from hcl: " + err.Error()
 		return
 	}
-	fh, err := recreate(ctx, filepath.Join(dir, fmt.Sprintf("e%dh.db", id)), hs)
+	// a second evaluation of the document is the desired state of the re-plan (the first one was consumed by the plan above)
+	var ev2 schema.Schema
+	if err := sqlite.EvalHCLBytes(hcl, &ev2, nil); err != nil {
+		o.Err = "eval hcl: " + err.Error()
+		return
+	}
+	fh, fresh, err := recreateAndDiff(ctx, filepath.Join(dir, fmt.Sprintf("e%dh.db", id)), hs, &ev2)
 	if err != nil {
 		o.Err = "re-create from hcl: " + err.Error()
 		return
+	}
+	o.FreshDiff = len(fresh)
+	for _, c := range fresh {
+		o.Changes = append(o.Changes, "re-plan on the re-created database: "+c)
 	}
 	o.FromHCL = normInline(fh, inl)
 	// the SQL export: the statements that create the inspected schema
